@@ -98,6 +98,12 @@ def run(ctx):
     # 4. trace validation by TLC
     bad = ctx.tlc_validate("Trace_C02", "Trace.cfg", [{k: v for k, v in ln.items() if k != "raw"} for ln in lines])
     byoid = {ln["oid"]: (o, ln) for o, ln in zip(todo, lines)}
+    good = [{k: v for k, v in ln.items() if k != "raw"} for ln in lines if ln["oid"] not in bad and any(r[0] != 0 for r in ln["row"])]
+    ctx.selftest("Trace_C02", "Trace.cfg", good, [
+        ("row", lambda l: dict(l, row=[[r[0] + (1 if r[0] != 0 else 0), r[1]] for r in l["row"]])),
+        ("offnode", lambda l: dict(l, offnode_milli=5000)),
+        ("nf", lambda l: dict(l, nf=l["nf"] - 1)),
+        ("outcome", lambda l: dict(l, outcome="Crash_KeyError"))])
     for oid, clause in bad.items():
         o, ln = byoid[oid]
         pt = o["pt"]
